@@ -112,6 +112,12 @@ def strip_for_pi(s):
     return out
 
 
+RAW_PLAIN = u("abcxyz019 .,;:=/()!")
+# FormatterListener::s_piTarget / s_piData: the PI that makes the next text node unescaped (the translator reads the
+# same constants for the model; here they are written out, so that a changed constant shows as a stray PI)
+RAW_MARKER = (u("Xalan"), u("raw"))
+
+
 def gen_doc(r, dirty):
     """one document; the first child of the root is a pad of 'a's that moves what follows to an
     offset around the 512 / 1024 marks of the writer's buffer"""
@@ -130,8 +136,18 @@ def gen_doc(r, dirty):
             if budget[0] <= 0:
                 break
             budget[0] -= 1
-            k = r.weighted([("t", 8), ("c", 5), ("m", 3), ("p", 2), ("el", 4 if depth < 3 else 0)])
-            if k == "t":
+            k = r.weighted([("t", 8), ("c", 5), ("m", 3), ("p", 2), ("el", 4 if depth < 3 else 0), ("raw", 2)])
+            if k == "raw":
+                # the marker PI + a text / CDATA event (what xsl:copy-of of disable-output-escaping text sends), then
+                # ordinary text with markup characters: only the first may come out unescaped
+                plain = [r.choice(RAW_PLAIN) for _ in range(r.range(1, 12))]
+                kids.append((r.choice(["rt", "rc"]), plain))
+                if r.chance(3, 4):
+                    if r.chance(1, 3):
+                        kids.append(("m", u("c")))
+                    s = r.choice([u("<hr/>"), u("a&b"), u("]]>"), u("<"), u("x>y")]) + gen_string(r, 6, prof)
+                    kids.append(("t", s, None))
+            elif k == "t":
                 s = gen_string(r, 12, prof)
                 kids.append(("t", s, tail_for(r, s)))
             elif k == "c":
@@ -190,6 +206,10 @@ def events(node):
         return ["m:" + hx(node[1])]
     if k == "p":
         return ["p:%s:%s" % (hx(node[1]), hx(node[2]))]
+    if k == "mk":                     # the bare marker PI
+        return ["p:%s:%s" % (hx(RAW_MARKER[0]), hx(RAW_MARKER[1]))]
+    if k in ("rt", "rc"):             # marker PI + characters / cdata: written raw
+        return ["p:%s:%s" % (hx(RAW_MARKER[0]), hx(RAW_MARKER[1])), "%s:%s" % ("t" if k == "rt" else "c", hx(node[1]))]
     if k == "r":                      # charactersRaw (disable-output-escaping): the bulk write path of the writers
         return ["r:" + hx(node[1])]
     raise ValueError(k)
@@ -214,8 +234,10 @@ def expected(node):
             for ch in n[3]:
                 walk(ch)
             out.append(("e", n[1]))
-        elif k in ("t", "c", "r"):    # raw text is generated without markup characters: it reads back as itself
+        elif k in ("t", "c", "r", "rt", "rc"):    # raw text is generated without markup characters: it reads back as itself
             text(n[1])
+        elif k == "mk":
+            pass
         elif k == "m":
             out.append(("m", n[1]))
         else:
@@ -337,9 +359,11 @@ def features(node, enc, ver):
             chars("text", n[1])
             if n[2] is not None:
                 feats.add("text+slice")
-        elif k == "r":
+        elif k in ("r", "rt", "rc"):
             chars("text", n[1])
-            feats.add("raw-text")
+            feats.add("raw-text" if k == "r" else "raw-marker")
+        elif k == "mk":
+            feats.add("raw-marker")
         elif k == "c":
             chars("cdata", n[1])
             if n[2] is not None:
